@@ -19,6 +19,8 @@ struct ByteSource {
   // harness after replays were saved (storage kind of an operand, ...): the forward decoding stays what it was.
   uint8_t tail_u8() { uint8_t b = tailpos < n ? p[n - 1 - tailpos] : 0; tailpos++; tailmix = tailmix * 1099511628211ULL + b + 1; return b; }
   unsigned tail_choose(unsigned k) { return k <= 1 ? 0u : (unsigned)(tail_u8() % k); }
+  // a byte at a fixed distance from the end, without consuming anything: for choices added after other tail choices were in use
+  uint8_t tail_at(size_t off) { uint8_t b = off < n ? p[n - 1 - off] : 0; tailmix = tailmix * 1099511628211ULL + b + 257 * (off + 1); return b; }
   bool exhausted() const { return pos >= n; }
   uint8_t u8() { return pos < n ? p[pos++] : 0; }
   // choice among k alternatives, k in 1..256
